@@ -671,3 +671,5 @@ META = {
     "assumptions": ["models have at least one key", "the table comparator identifies a model by its marker keys and answers with one solver bit per unordered pair of marker sets (also for models produced by an earlier merge); root models are dissimilar to everything",
                     "spec for percent: 100*|a&b| >= P*|a|b| over the integers; default thresholds are 70% and 10 as documented"],
 }
+if isinstance(META.get("bounds"), dict) and "quick" in META["bounds"]:
+    META["bounds"]["quick"] += '; all 1024 similarity tables on 5 models directly under the root; exact combined with number / percent in both orders'
